@@ -12,6 +12,16 @@ def _tag(cfg):
     return "" if cfg == "default" else "@" + cfg
 
 
+def _ctor_blocks(fn, g):
+    """blocks of fn in which the closure/coroutine g is constructed"""
+    out = []
+    for b, i, st in fn.stmts():
+        rv = st["rv"]
+        if rv["k"] == "agg" and rv.get("n") == g.id:
+            out.append(b)
+    return out
+
+
 def run(ck, ctx):
     ck.rule("R05.1", "nothing executes while queuing: every data-executing call of the connection handler (state.execute, pooled/fast "
                      "paths, batch pipelines) is dominated by the `in_transaction == false` edge or lies in the EXEC arm")
@@ -25,6 +35,9 @@ def run(ck, ctx):
     ck.rule("R05.5", "transaction-control arms exist in both states (nested MULTI, WATCH inside MULTI, EXEC/DISCARD without MULTI)")
     ck.rule("R05.6", "WATCH only appends: inside the WATCH arm the snapshot list is only pushed to (the first snapshot of a key is "
                      "never refreshed, removed or overwritten); UNWATCH/EXEC/DISCARD are the only places that clear it")
+    ck.rule("R05.8", "EXEC re-observes with WATCH's observer: the command the connection handler constructs to re-read a watched key in the "
+                     "EXEC arm is the command the WATCH arm constructed for the snapshot (two different observers - GET vs MGET/EXISTS/TYPE - "
+                     "answer differently for some key states, so unchanged keys would compare unequal or changed keys equal)")
     ck.rule("R05.7", "a queue-time command error always aborts: on the in_transaction edge of the command-parse error arm every "
                      "path sets transaction_errors = true; unknown commands in MULTI do the same")
     ck.nd("equality with sequential execution; isolation against other connections (EXEC is a sequence of independent shard awaits)")
@@ -223,6 +236,26 @@ def _rules(ck, prog, cfg):
                  "WATCH snapshots a key with Command::%s, whose handler answers the same constant error for every non-string type: a "
                  "change of a watched list/set/hash/zset is invisible and EXEC runs" % sc,
                  collapse[0].where(collapse[1]["ln"]) if collapse else None, detail="observer distinguishes all value types")
+
+    # ---- R05.8: EXEC re-observes a watched key with the observer WATCH used
+    exec_cmds = set()
+    for b in sorted(exec_arm):
+        for st in fn.blocks[b]["st"]:
+            rv = st["rv"]
+            if rv["k"] == "agg" and rv["n"].startswith("redis::command::Command::"):
+                exec_cmds.add(rv["n"].rsplit("::", 1)[-1])
+    for g in prog.children(fn):
+        if any(b in exec_arm for b in _ctor_blocks(fn, g)):
+            for b, i, st in g.stmts():
+                rv = st["rv"]
+                if rv["k"] == "agg" and rv["n"].startswith("redis::command::Command::"):
+                    exec_cmds.add(rv["n"].rsplit("::", 1)[-1])
+    ck.floor("R05.8" + _tag(cfg), len(exec_cmds), 1)
+    ck.check(exec_cmds == snap_cmds, "R05.8", "EXEC:observer-is-WATCH-observer" + _tag(cfg),
+             "EXEC re-reads watched keys with Command::{%s} while WATCH took its snapshot with Command::{%s}: two observers answer differently "
+             "for some key states (GET answers WRONGTYPE for a list/set/hash/zset, MGET answers nil), so an unchanged watched key "
+             "compares unequal and EXEC aborts - or a changed one compares equal" % (",".join(sorted(exec_cmds)), ",".join(sorted(snap_cmds))),
+             fn.where(), detail="both use Command::{%s}" % ",".join(sorted(snap_cmds)))
 
     # ---- R05.6
     n6 = 0
